@@ -210,3 +210,10 @@ Example init_evaluator_ex :
   check_impl init_case = true /\ check_spec init_case = true /\
   check_impl init_case_lost = false /\ check_spec init_case_lost = false.
 Proof. repeat split; vm_compute; reflexivity. Qed.
+
+(* an unreadable entry in directory 0 does not hide the module in directory 1, and is listed *)
+Example unreadable_ex :
+  let s := set_file (set_file init 0 0 (Some FUnreadable)) 1 0 (Some (FScript [Return (EStr 0)])) in
+  snd (require 2 s 0) = Ok (VStr 0) /\ newlog s (fst (require 2 s 0)) = [(0, OFile 1)] /\
+  snd (require 2 (set_file init 0 0 (Some FUnreadable)) 0) = Err (ENotFound 0 [TPre 0; TPath 0 0; TPath 1 0]).
+Proof. repeat split. Qed.
